@@ -137,7 +137,7 @@ fn docv() -> impl Strategy<Value = DocV> {
       prop::collection::vec((any::<u8>(), rulev()), 0..3),
       prop::collection::vec((any::<u8>(), rulev()), 0..2),
       prop::collection::vec((0u8..5, any::<u8>(), any::<u8>(), any::<u8>(), any::<u8>()), 0..4),
-      prop::collection::vec((any::<u8>(), rulev(), prop::option::of(any::<u8>())), 0..2),
+      prop::collection::vec((any::<u8>(), rulev(), prop::option::of(any::<u8>())), 0..3),
     ),
     (
       prop::option::of((any::<u8>(), any::<bool>(), prop::option::of(rulev()))),
@@ -344,7 +344,7 @@ fn render_doc(d: &DocV, idx: usize) -> Y {
     let mut t = Mapping::new();
     for (i, (kind, a, b, c, e)) in d.transforms.iter().enumerate() {
       let mut inner = Mapping::new();
-      let src = ["$A", "$$$ARGS", "", "$", "é", "A", "$T0", "$T1", "$NEW", "$B"][*a as usize % 10];
+      let src = ["$A", "$$$ARGS", "", "$", "é", "A", "$T0", "$T1", "$NEW", "$B", "$A", "$A", "$F", "$A", "$$$ARGS", "$T0"][*a as usize % 16];
       inner.insert(ys("source"), ys(src));
       let name = match kind % 5 {
         0 => {
@@ -358,9 +358,14 @@ fn render_doc(d: &DocV, idx: usize) -> Y {
           "replace"
         }
         2 => {
-          inner.insert(ys("toCase"), ys(["lowerCase", "camelCase", "snakeCase", "pascalCase", "bogus"][*b as usize % 5]));
-          if c % 2 == 0 {
-            inner.insert(ys("separatedBy"), Y::Sequence(vec![ys(["underscore", "caseChange", "dash", "bogus"][*e as usize % 4])]));
+          inner.insert(ys("toCase"), ys(["lowerCase", "upperCase", "capitalize", "camelCase", "snakeCase", "kebabCase", "pascalCase", "bogus"][*b as usize % 8]));
+          if c % 3 != 0 {
+            let seps = ["underscore", "caseChange", "dash", "dot", "slash", "space", "bogus"];
+            let mut list = vec![ys(seps[*e as usize % seps.len()])];
+            if c % 3 == 2 {
+              list.push(ys(seps[(*e as usize / 7) % seps.len()]));
+            }
+            inner.insert(ys("separatedBy"), Y::Sequence(list));
           }
           "convert"
         }
@@ -384,9 +389,15 @@ fn render_doc(d: &DocV, idx: usize) -> Y {
       .rewriters
       .iter()
       .enumerate()
-      .map(|(i, (_, r, fix))| {
+      .map(|(i, (a, r, fix))| {
         let mut rm = Mapping::new();
-        rm.insert(ys("id"), ys(&format!("rw{i}")));
+        // mostly distinct ids; sometimes a duplicate or an adversarial id
+        let id = match a % 8 {
+          0 => format!("rw{}", (i + 1) % 3),
+          1 => s(a / 8),
+          _ => format!("rw{i}"),
+        };
+        rm.insert(ys("id"), ys(&id));
         rm.insert(ys("rule"), render_rule(r, 0));
         if let Some(f) = fix {
           if f % 4 == 0 {
@@ -425,6 +436,132 @@ fn render_doc(d: &DocV, idx: usize) -> Y {
   Y::Mapping(m)
 }
 
+
+const GLOBS: &[&str] = &["*.js", "**/*.ts", "*.{mjs,cjs", "[a", "", "/", "!x", "a**b", "\\", "{", "***", "[!]", "[z-a]", "src/**", "*.vue", ".eslintrc", "{a,b}/*.py", "**"];
+
+/// bytes of a generated document, used as the entropy of the config / test-file renderers
+fn entropy(d: &DocV) -> Vec<u8> {
+  let mut e = vec![d.lang];
+  for (k, v) in &d.misc {
+    e.push(*k);
+    if let V::Str(x) | V::Num(x) = v {
+      e.push(*x);
+    }
+  }
+  for (a, b, c, dd, f) in &d.transforms {
+    e.extend_from_slice(&[*a, *b, *c, *dd, *f]);
+  }
+  for (a, _, f) in &d.rewriters {
+    e.push(*a);
+    e.push(f.unwrap_or(7));
+  }
+  for (a, _) in d.utils.iter().chain(d.constraints.iter()) {
+    e.push(*a);
+  }
+  if let Some((f, o, _)) = &d.fix {
+    e.push(*f);
+    e.push(*o as u8);
+  }
+  e
+}
+
+/// sgconfig.yml: every documented key, with mostly valid and sometimes adversarial values
+fn render_config(d: &DocV) -> Y {
+  let ent = entropy(d);
+  let e = |i: usize| ent[i % ent.len()].wrapping_add(((i / ent.len()) as u8).wrapping_mul(37));
+  let str_or = |i: usize, good: &str| if e(i) % 5 == 0 { ys(&s(e(i + 1))) } else { ys(good) };
+  let mut m = Mapping::new();
+  m.insert(ys("ruleDirs"), Y::Sequence(vec![str_or(0, "rules")]));
+  if e(2) % 3 == 0 {
+    m.insert(ys("utilDirs"), Y::Sequence(vec![str_or(3, "utils")]));
+  }
+  if e(5) % 2 == 0 {
+    let mut t = Mapping::new();
+    t.insert(ys("testDir"), str_or(6, "tests"));
+    if e(8) % 2 == 0 {
+      t.insert(ys("snapshotDir"), str_or(9, "__snapshots__"));
+    }
+    m.insert(ys("testConfigs"), Y::Sequence(vec![Y::Mapping(t)]));
+  }
+  if e(11) % 4 != 0 {
+    let mut g = Mapping::new();
+    for j in 0..1 + e(12) as usize % 3 {
+      let lang = ["js", "html", "python", "JavaScript", "ts", "Klingon", "css", ""][e(13 + j) as usize % 8];
+      let globs = (0..1 + e(16 + j) as usize % 3).map(|k| ys(GLOBS[e(20 + j * 3 + k) as usize % GLOBS.len()])).collect();
+      g.insert(ys(lang), Y::Sequence(globs));
+    }
+    m.insert(ys("languageGlobs"), Y::Mapping(g));
+  }
+  if e(30) % 4 == 0 {
+    let mut c = Mapping::new();
+    c.insert(ys("libraryPath"), str_or(31, "mylang.so"));
+    c.insert(ys("extensions"), Y::Sequence(vec![str_or(33, "ml")]));
+    if e(35) % 2 == 0 {
+      c.insert(ys("expandoChar"), str_or(36, "_"));
+    }
+    if e(38) % 2 == 0 {
+      c.insert(ys("languageSymbol"), str_or(39, "tree_sitter_mylang"));
+    }
+    let mut cl = Mapping::new();
+    cl.insert(str_or(41, "mylang"), Y::Mapping(c));
+    m.insert(ys("customLanguages"), Y::Mapping(cl));
+  }
+  if e(43) % 3 == 0 {
+    let mut inj = Mapping::new();
+    inj.insert(ys("hostLanguage"), str_or(44, "js"));
+    inj.insert(ys("rule"), render_rule(&d.rule, 0));
+    inj.insert(ys("injected"), if e(46) % 2 == 0 { str_or(47, "css") } else { Y::Sequence(vec![str_or(47, "css"), str_or(49, "html")]) });
+    m.insert(ys("languageInjections"), Y::Sequence(vec![Y::Mapping(inj)]));
+  }
+  for (k, v) in &d.misc {
+    if k % 4 == 0 {
+      m.insert(ys(["ruleDirs", "testConfigs", "languageGlobs", "bogusKey", "utilDirs"][*k as usize / 4 % 5]), render_v(v, 0));
+    }
+  }
+  Y::Mapping(m)
+}
+
+/// a rule test file: id + valid / invalid snippets
+fn render_test(d: &DocV) -> Y {
+  let ent = entropy(d);
+  let e = |i: usize| ent[i % ent.len()].wrapping_add(((i / ent.len()) as u8).wrapping_mul(37));
+  let snippets = ["console.log(a)", "foo(1)", "", "function f() { console.log(b) }", "é😀 = (", "console.log(\n  a\n)", "a\r\nb"];
+  let list = |at: usize| -> Y {
+    Y::Sequence(
+      (0..e(at) as usize % 4)
+        .map(|j| match e(at + 1 + j) % 9 {
+          0 => ys(&s(e(at + 5 + j))),
+          1 => num(e(at + 5 + j)),
+          2 => Y::Null,
+          k => ys(snippets[k as usize % snippets.len()]),
+        })
+        .collect(),
+    )
+  };
+  let mut m = Mapping::new();
+  m.insert(ys("id"), if e(0) % 4 == 0 { ys(&s(e(1))) } else { ys("no-console") });
+  if e(2) % 6 != 0 {
+    m.insert(ys("valid"), list(3));
+  }
+  if e(10) % 6 != 0 {
+    m.insert(ys("invalid"), list(11));
+  }
+  for (k, v) in &d.misc {
+    if k % 3 == 0 {
+      m.insert(ys(["valid", "invalid", "id", "bogusKey"][*k as usize / 3 % 4]), render_v(v, 0));
+    }
+  }
+  Y::Mapping(m)
+}
+
+fn render_for(role: &Role, d: &DocV, idx: usize) -> Y {
+  match role {
+    Role::ProjectConfig => render_config(d),
+    Role::TestFile => render_test(d),
+    _ => render_doc(d, idx),
+  }
+}
+
 fn seeds() -> Vec<String> {
   let dir = crate::engine::verif_root().join("corpus/rules");
   let mut v: Vec<_> = std::fs::read_dir(dir).map(|rd| rd.flatten().map(|e| e.path()).collect()).unwrap_or_default();
@@ -444,10 +581,11 @@ fn role_of(k: u8) -> Role {
 pub fn interpret(ch: &Choice, _st: &mut Stats) -> Option<Case> {
   Some(match ch {
     Choice::Structured { docs, role, cli } => {
+      let r = role_of(*role);
       let text = docs
         .iter()
         .enumerate()
-        .map(|(i, d)| serde_yaml::to_string(&render_doc(d, i)).unwrap_or_default())
+        .map(|(i, d)| serde_yaml::to_string(&render_for(&r, d, i)).unwrap_or_default())
         .collect::<Vec<_>>()
         .join("---\n");
       let planted = docs.iter().find_map(|d| d.cycle).map(|(op, _)| {
@@ -462,7 +600,16 @@ pub fn interpret(ch: &Choice, _st: &mut Stats) -> Option<Case> {
     }
     Choice::Mutated { seed, muts, role, cli } => {
       let all = seeds();
-      let mut text: Vec<u8> = all[*seed as usize % all.len()].clone().into_bytes();
+      // the seed document fits the role: sgconfig / test file / rule files
+      let fits: Vec<&String> = all
+        .iter()
+        .filter(|t| match role_of(*role) {
+          Role::ProjectConfig => t.contains("ruleDirs"),
+          Role::TestFile => t.contains("invalid:") && !t.contains("rule:"),
+          _ => t.contains("rule:") && !t.contains("ruleDirs"),
+        })
+        .collect();
+      let mut text: Vec<u8> = if fits.is_empty() { all[*seed as usize % all.len()].clone().into_bytes() } else { fits[*seed as usize % fits.len()].clone().into_bytes() };
       for (kind, pos, val) in muts {
         if text.is_empty() {
           break;
@@ -528,7 +675,10 @@ pub fn interpret(ch: &Choice, _st: &mut Stats) -> Option<Case> {
 fn scan_sources(lang: SupportLang) -> Vec<String> {
   let li = crate::langs::info(lang);
   let dir = crate::engine::verif_root().join("corpus").join(li.dir);
-  let mut out = vec![String::from("foo(1)\nfoo(a, b)\nconsole.log(a)\nbar(foo(2))\nlet user_account_name = 1;\n"), String::from("\n"), String::from("a"), String::from("((((((((x))))))))"), String::from("é😀 = \"日本\" (")];
+  let mut out = vec![String::from("foo(1)\nfoo(a, b)\nconsole.log(a)\nbar(foo(2))\nlet user_account_name = 1;\n"), String::from("\n"), String::from("a"), String::from("((((((((x))))))))"), String::from("é😀 = \"日本\" ("),
+    // identifiers and strings whose case mapping / case boundaries involve multi-byte characters
+    String::from("foo(NOÉl)\nfoo(getURLÉtat)\nfoo(ǅemal)\nfoo(İstanbul, ΑΒΓδ)\nfoo(straßeSTRAẞE)\nconsole.log(XMLÉcole)\nfoo(\"ÀÉ-ÎÕ_üX.yZ\")\nbar(ÉÉé, aÉ, Éa)\nlet user_ÀccountÑame = ÑOÑo;\n"),
+  ];
   if let Ok(rd) = std::fs::read_dir(dir) {
     let mut paths: Vec<_> = rd.flatten().map(|e| e.path()).collect();
     paths.sort();
@@ -655,7 +805,8 @@ fn classify_cli(out: &cli::Out) -> CheckResult {
   }
   if err.contains("panicked at") {
     let line = err.lines().find(|l| l.contains("panicked at")).unwrap_or("");
-    let loc = line.split("panicked at ").nth(1).unwrap_or("").split(':').next().unwrap_or("").trim_start_matches("/repo/");
+    let loc = line.split("panicked at ").nth(1).unwrap_or("").split(':').next().unwrap_or("");
+    let loc = loc.find("crates/").map(|i| &loc[i..]).unwrap_or(loc);
     return Err(Fail::new(format!("C11:cli:panic:{loc}"), err.chars().take(400).collect::<String>()));
   }
   if out.status.is_none() {
@@ -721,7 +872,7 @@ pub fn run(cfg: &RunCfg) -> i32 {
     return crate::replay_main::<Case>(cfg, path, check);
   }
   crate::replay_known::<Case>(&mut report, &known, check);
-  let total = cfg.budget(5_000, 150_000);
+  let total = cfg.budget(20_000, 300_000);
   let o = drive(cfg, "documents", total, &known, strategy, interpret, check);
   report.absorb("documents", o);
   cli::cleanup_work_root();
@@ -769,7 +920,7 @@ impl<'a> Bytes<'a> {
     let utils = (0..self.u8() % 3).map(|_| (self.u8(), self.rule(1))).collect();
     let constraints = (0..self.u8() % 2).map(|_| (self.u8(), self.rule(1))).collect();
     let transforms = (0..self.u8() % 4).map(|_| (self.u8() % 5, self.u8(), self.u8(), self.u8(), self.u8())).collect();
-    let rewriters = (0..self.u8() % 2)
+    let rewriters = (0..self.u8() % 3)
       .map(|_| {
         let a = self.u8();
         let r = self.rule(1);
@@ -816,7 +967,7 @@ pub fn decode_bytes(data: &[u8]) -> Case {
     0 | 1 => {
       let n = 1 + b.u8() % 2;
       let text = (0..n)
-        .map(|i| serde_yaml::to_string(&render_doc(&b.doc(), i as usize)).unwrap_or_default())
+        .map(|i| serde_yaml::to_string(&render_for(&role, &b.doc(), i as usize)).unwrap_or_default())
         .collect::<Vec<_>>()
         .join("---\n");
       Case {
@@ -833,7 +984,12 @@ pub fn decode_bytes(data: &[u8]) -> Case {
       let ch = Choice::Mutated {
         seed,
         muts,
-        role: 0,
+        role: match role {
+          Role::Rule => 0,
+          Role::UtilRule => 5,
+          Role::TestFile => 6,
+          Role::ProjectConfig => 7,
+        },
         cli: false,
       };
       let _ = all;
